@@ -154,6 +154,8 @@ func (r *Resolver) Resolve(reqs []*chart.Dependency, repoNames map[string]string
 					return nil, errors.Wrapf(err, "could not retrieve list of tags for repository %s", d.Repository)
 				}
 
+				// a range: one of the tags has to satisfy it
+				found = false
 				vs = make(repo.ChartVersions, len(tags))
 				for ti, t := range tags {
 					// Mock chart version objects
